@@ -23,8 +23,16 @@ labelled charset are also valid UTF-8 for another text) x 4 transfer encodings, 
 the encoding can carry (quick: structure alternative, CRLF; thorough: x 8 structures x 2 line ends); the subject-charset family:
 a subject written as B and as Q encoded-words in every octet charset x every sample (thorough: also with the body in the same
 charset),
-each as .eml and as single-message mbox in all three separator forms (quick: the two charset families as mbox in the standard
-form only); the From-line variants for all <=1-deviations; all
+the part-form family (how a carried part is marked as a file): 13 content types (text/plain, text/html, six other text/* types,
+application/json, application/pdf, image/png, application/octet-stream, a real DOCX) x 11 forms = Content-Disposition
+{attachment, inline, absent} x name {none, filename on Content-Disposition, name on Content-Type, both (different)} where
+expressible, + "ATTACHMENT" in capitals without a name; minus the unnamed text/plain|html parts without an attachment disposition
+(those are bodies); each as the only attachment of structure mixed-plain-att-att and as a third representation inside the
+multipart/alternative of structure alternative (case-spec dimension "alt_extra": list of atom names), plus all ordered pairs over a
+4-form alphabet as two attachments and as alt_extra x attachment of mixed-alt-att (thorough: every form x base64|quoted-printable x
+the four attachment-bearing structures and both alternative-bearing ones x both line ends, x 3 separator forms),
+each as .eml and as single-message mbox in all three separator forms (quick: the two charset families and the part-form family as
+mbox in the standard form only); the From-line variants for all <=1-deviations; all
 ordered pairs and triples over a 6-spec alphabet x 9 separator/From-line variants; the empty mailbox.
 
 Oracle (clauses): subject, from, to, cc, bcc, reply_to, date (same instant), message_id, in_reply_to, body_plain, body_html,
@@ -102,6 +110,8 @@ _MEMBERS = None
 
 def atom(name: str) -> dict:
     global _MEMBERS
+    if name.startswith("pf/"):
+        return pf_atom(name)
     if name in ATOMS:
         return ATOMS[name]
     if _MEMBERS is None:
@@ -190,6 +200,94 @@ def _subject_domain() -> list:
 
 DOM["subject"] = list(DOM["subject"]) + _subject_domain()
 
+# ----------------------------------------------------------------------------------------------------------------------
+# part-form family: how a carried part is marked as a file.  A form atom is named "pf/<type>/<disposition>/<name>[/qp]".
+
+_TF = {k: mail._n(k[0]) for k in ("B4", "B5", "C3", "C4")}                  # drawn after every other token of this module
+PF_TYPES = {
+    # key: (content type, file extension, charset parameter, bytes)
+    "plain": ("text/plain", "txt", "utf-8", lambda: (_TF["B4"] + " café €\n").encode("utf-8")),
+    "html": ("text/html", "html", "utf-8", lambda: ("<html><body><p>%s café</p></body></html>\n" % _TF["B4"]).encode("utf-8")),
+    "csv": ("text/csv", "csv", "utf-8", lambda: ("%s,%s\r\n1,Zoë\r\n" % (_TF["C3"], _TF["C4"])).encode("utf-8")),
+    "calendar": ("text/calendar", "ics", "utf-8", lambda: (
+        "BEGIN:VCALENDAR\r\nVERSION:2.0\r\nMETHOD:REQUEST\r\nBEGIN:VEVENT\r\nSUMMARY:%s\r\nDTSTART:20240102T090000Z\r\nEND:VEVENT\r\n"
+        "END:VCALENDAR\r\n" % _TF["B4"]).encode("utf-8")),
+    "vcard": ("text/x-vcard", "vcf", "utf-8", lambda: ("BEGIN:VCARD\r\nVERSION:3.0\r\nFN:%s Zoë\r\nEND:VCARD\r\n" % _TF["B4"]).encode("utf-8")),
+    "xml": ("text/xml", "xml", "utf-8", lambda: ('<?xml version="1.0" encoding="utf-8"?>\n<r><v>%s é</v></r>\n' % _TF["B4"]).encode("utf-8")),
+    "headers": ("text/rfc822-headers", "hdr", None, lambda: ("Subject: %s\r\nX-Note: %s\r\n" % (_TF["B4"], _TF["B5"])).encode("ascii")),
+    "markdown": ("text/markdown", "md", "utf-8", lambda: ("# %s\n\n%s café\n" % (_TF["B4"], _TF["B5"])).encode("utf-8")),
+    "json": ("application/json", "json", None, lambda: ('{"%s": ["%s", 1]}\n' % (_TF["C3"], _TF["B4"])).encode("ascii")),
+    "pdf": ("application/pdf", "pdf", None, lambda: b"%PDF-1.4\r\n\x00\xff\xfe binary\n" + _TF["B4"].encode() + b"\r\n%%EOF"),
+    "png": ("image/png", "png", None, lambda: mail.INLINE_PNG),
+    "octet": ("application/octet-stream", "bin", None, lambda: bytes(range(256))),
+    "docx": (DOCX_MIME, "docx", None, _docx_bytes),
+}
+PF_DISP = {"att": "attachment", "ATT": "ATTACHMENT", "inline": "inline", "none": None}
+PF_NAMES = ("none", "fn", "np", "both")
+_PF_DATA = {}
+
+
+def pf_atom(name: str) -> dict:
+    parts = name.split("/")
+    t, d, n = parts[1:4]
+    ctype, ext, charset, data = PF_TYPES[t]
+    if t not in _PF_DATA:
+        _PF_DATA[t] = data().hex()
+    a = {"filename": ("file-%s.%s" % (t, ext)) if n in ("fn", "both") else None, "filename_style": "plain", "ctype": ctype,
+         "cte": "quoted-printable" if parts[4:] == ["qp"] else "base64", "data_hex": _PF_DATA[t], "disposition": PF_DISP[d]}
+    if n in ("np", "both"):
+        a["name_param"] = "named-%s.%s" % (t, ext)
+    if charset:
+        a["charset"] = charset
+    return a
+
+
+def pf_atoms(tier: str) -> list:
+    """Every expressible form atom (quick: base64 only; "ATTACHMENT" in capitals only without a name)."""
+    out = []
+    for t in PF_TYPES:
+        for d in PF_DISP:
+            for n in PF_NAMES:
+                if d == "ATT" and n != "none":
+                    continue
+                for sfx in (("",) if tier == "quick" else ("", "/qp")):
+                    out.append("pf/%s/%s/%s%s" % (t, d, n, sfx))
+    ok = []
+    for a in out:
+        try:
+            mail._leaf_att(mail._norm_atts([pf_atom(a)])[0])
+            ok.append(a)
+        except NotImplementedError:
+            pass
+    return ok
+
+
+PF_PAIR = ["pf/calendar/none/none", "pf/csv/inline/none", "pf/png/none/none", "pf/plain/inline/fn"]
+
+
+def partform_specs(tier: str) -> list:
+    """The part-form family (see the module docstring)."""
+    out = []
+    atoms = pf_atoms(tier)
+    slots = [4] if tier == "quick" else ATT_STRUCTS
+    alts = [2] if tier == "quick" else [2, 3]
+    les = [0] if tier == "quick" else [0, 1]
+    for le in les:
+        dev = {"line_end": le} if le else {}
+        for a in atoms:
+            for st in slots:
+                out.append(dict(dev, structure=st, attachments=[a]))
+            for st in alts:
+                out.append(dict(dev, structure=st, alt_extra=[a]))
+    for a, b in itertools.product(PF_PAIR, repeat=2):
+        out.append({"structure": 4, "attachments": [a, b]})
+        out.append({"structure": 3, "alt_extra": [a], "attachments": [b]})
+        if tier != "quick":
+            out.append({"structure": 2, "alt_extra": [a, b]})
+            out.append({"structure": 6, "attachments": [a, b]})
+    return [c for c in out if expressible(c)]
+
+
 ATOM_NAMES = list(ATOMS) + ["docx", "docx-octet", "docx-noname", "docx-2231", "docx-noext", "txt-utf8", "html-as-plain", "csv-as-xls"]
 ATT_STRUCTS = [3, 4, 6, 7]          # mixed-alt-att, mixed-plain-att-att, mixed-mixed, rfc822-attachment
 PAIR_ALPHA = ["txt", "docx", "bin256", "noname"]
@@ -206,7 +304,7 @@ def att_lists() -> list:
 def to_spec(cs: dict) -> dict:
     spec = {}
     for k, v in cs.items():
-        if k == "attachments":
+        if k in ("attachments", "alt_extra"):
             spec[k] = [copy.deepcopy(atom(a)) for a in v]
         elif k == "text":
             continue
@@ -352,14 +450,14 @@ def all_cases(tier: str) -> list:
     atts = att_specs(tier)
     seen = set()
     main = singles + atts + decoding_specs(tier) + inner_specs(tier)
-    fam = charset_specs(tier) + subject_charset_specs(tier)
+    fam = charset_specs(tier) + subject_charset_specs(tier) + partform_specs(tier)
     for n, cs in enumerate(main + fam):
         key = json.dumps(cs, sort_keys=True)
         if key in seen:
             continue
         seen.add(key)
         cases.append(("eml", {"spec": cs}))
-        # the charset families: quick reads the mailbox in its standard separator form only
+        # the charset families and the part-form family: quick reads the mailbox in its standard separator form only
         for sep in (SEPS[:1] if tier == "quick" and n >= len(main) else SEPS):
             cases.append(("mbox", {"specs": [cs], "sep": sep, "flb": None}))
         if len(cs) <= 1 and n < len(main):
@@ -854,7 +952,7 @@ def reexec(fmt, case):
 def _shrink_spec(cs):
     for k in list(cs):
         c = {a: b for a, b in cs.items() if a != k}
-        if k == "structure" and "attachments" in c:
+        if k == "structure" and ("attachments" in c or "alt_extra" in c):
             continue
         yield c
     if cs.get("inner", 0) > 3:
@@ -863,10 +961,29 @@ def _shrink_spec(cs):
         yield dict(cs, structure=4)                    # the plainest attachment-bearing structure
     if cs.get("structure") in (2, 3, 5) and "attachments" not in cs:
         yield dict(cs, structure=1)                    # the plainest structure with an HTML body
-    if "attachments" in cs and len(cs["attachments"]) > 1:
-        lst = cs["attachments"]
-        for i in range(len(lst)):
-            yield dict(cs, attachments=lst[:i] + lst[i + 1:])
+    for key in ("attachments", "alt_extra"):
+        lst = cs.get(key) or []
+        if len(lst) > 1:
+            for i in range(len(lst)):
+                yield dict(cs, **{key: lst[:i] + lst[i + 1:]})
+        for i, a in enumerate(lst):
+            for b in _shrink_form(a):
+                yield dict(cs, **{key: lst[:i] + [b] + lst[i + 1:]})
+
+
+def _shrink_form(a: str):
+    """Simpler forms of a part-form atom: base64; no name / one name; the plain attachment disposition."""
+    if not a.startswith("pf/"):
+        return
+    p = a.split("/")
+    if p[4:]:
+        yield "/".join(p[:4])
+    t, d, n = p[1:4]
+    for n2 in {"both": ("fn", "np"), "fn": ("none",), "np": ("none",)}.get(n, ()):
+        if not (PF_DISP[d] is None and n2 == "fn"):
+            yield "/".join(["pf", t, d, n2] + p[4:])
+    if d != "att":
+        yield "/".join(["pf", t, "att", n] + p[4:])
 
 
 def shrinks(case):
@@ -897,7 +1014,7 @@ def _spec_embeds(small, big) -> bool:
     for k, v in small.items():
         if k not in big:
             return False
-        if k == "attachments":
+        if k in ("attachments", "alt_extra"):
             it = iter(big[k])
             if not all(any(a == b for b in it) for a in v):
                 return False
@@ -998,12 +1115,20 @@ def run(ctx):
                    "deviation), plus the full product structure x charset x transfer encoding x line end (thorough: x 3 body texts), 4 embedded-message variants of rfc822-attachment (x one more deviation); "
                    "the charset family: %d charset labels x %d sample texts x 4 transfer encodings where encodable / carriable (quick: structure "
                    "alternative, CRLF; thorough: x 8 structures x 2 line ends) and %d subjects written as B/Q encoded-words in every octet charset "
-                   "(thorough: also with the body in that charset), quick: as .eml and standard mbox only; each spec as .eml and as single-message mbox x {standard, no-blank-line, crlf}; the <=1-deviation specs also "
+                   "(thorough: also with the body in that charset), quick: as .eml and standard mbox only; the part-form family: %d part-form atoms "
+                   "(%d content types x Content-Disposition {attachment, ATTACHMENT, inline, absent} x name {none, filename, name on Content-Type, both} "
+                   "where expressible; unnamed text/plain|html without an attachment disposition excluded as bodies; thorough: x base64|quoted-printable) as the "
+                   "only attachment of mixed-plain-att-att and as a third representation in multipart/alternative, + ordered pairs over a 4-form alphabet "
+                   "(thorough: x 4 attachment-bearing and 2 alternative-bearing structures x 2 line ends x 3 separator forms), quick: as .eml and standard mbox only; each spec as .eml and as single-message mbox x {standard, no-blank-line, crlf}; the <=1-deviation specs also "
                    "with the escaped / unescaped From-line body variant; all ordered pairs and triples over a 6-spec alphabet x 3 separators x "
                    "3 From-line variants; the empty mailbox; 2 .msg fixtures. distinct_nontrivial = distinct (format, observed shape, "
-                   "violated clauses) classes" % (len(DOM["charset"]), len(TEXTS) - 1, len(DOM["subject"]) - BASE_LEN["subject"]),
+                   "violated clauses) classes" % (len(DOM["charset"]), len(TEXTS) - 1, len(DOM["subject"]) - BASE_LEN["subject"],
+                                                 len(pf_atoms(ctx.tier)), len(PF_TYPES)),
            "bounds": {"charset_labels": len(DOM["charset"]), "sample_texts": len(TEXTS) - 1, "transfer_encodings": len(DOM["cte"]),
                       "charset_family_specs": sum(1 for f, c in cases if f == "eml" and "text" in c["spec"]),
+                      "partform_atoms": len(pf_atoms(ctx.tier)), "partform_types": len(PF_TYPES),
+                      "partform_specs": sum(1 for f, c in cases if f == "eml" and any(
+                          a.startswith("pf/") for a in c["spec"].get("attachments", []) + c["spec"].get("alt_extra", []))),
                       "subject_charset_specs": sum(1 for f, c in cases if f == "eml" and c["spec"].get("subject", 0) >= BASE_LEN["subject"])},
            "message_specs": nsingle, "per_format": per_fmt, "sub_checks": checks, "outcomes": dict(sorted(outcomes.items(), key=lambda kv: -kv[1])[:80]),
            "samples": samples}
@@ -1022,6 +1147,11 @@ def run(ctx):
         "one to mailbox.mbox's is accepted) and an exception there is not judged",
         "att_extract is evaluated only for attachments whose type and bytes came back right; 'supported' = routable by file name and/or "
         "listed MIME type; name-only / mime-only routability is reported under separate clauses",
+        "part-form family: a carried part counts as a file (attachment with its type and exact bytes, its name when it has one) when it has "
+        "Content-Disposition attachment (any letter case), or a file name (filename on Content-Disposition or name on Content-Type; the former "
+        "wins when both are given, as the standard library reads it), or a content type other than text/plain and text/html; an unnamed "
+        "text/plain or text/html part without an attachment disposition is a body and is not part of the family (whether a second such part "
+        "is appended to the body is not judged)",
         ".msg: fixtures only; basic_email.msg and basic_email.eml are different messages (different Message-ID), so basic_email.msg is "
         "compared with the transport-header stream stored inside the .msg; reply_to/bcc/in_reply_to of .msg are not judged",
     ]
